@@ -79,7 +79,12 @@ class Session:
                 try:
                     s.add(*hints)
                     t1 = time.time()
-                    if s.check() == z3.sat:
+                    # generous budget: this runs for the few obligations that carry hints only, and a
+                    # timeout here would turn a known finding into an undecided run on a loaded machine
+                    s.set("timeout", max(self.timeout_ms, 120000))
+                    rh = s.check()
+                    s.set("timeout", self.timeout_ms)
+                    if rh == z3.sat:
                         hint_model = model_to_dict(s.model())
                         hint_model["__hint__"] = "counter-model found under the contract's search hints " + \
                             ", ".join(str(h) for h in hints)
@@ -168,9 +173,16 @@ class Session:
                     s.push()
                     try:
                         s.add(z3.Not(z3.Or(*regions)))
+                        s.set("timeout", max(self.timeout_ms, 120000))
                         r2 = s.check()
+                        s.set("timeout", self.timeout_ms)
                         if r2 == z3.sat:
                             model = model_to_dict(s.model())
+                        if r2 == z3.unknown:
+                            from .purify import second_chance, third_chance
+                            if third_chance(s.assertions(), max(self.timeout_ms, 60000)) == "unsat" or \
+                                    second_chance(s.assertions(), max(self.timeout_ms, 60000)) == "unsat":
+                                r2 = z3.unsat
                     finally:
                         s.pop()
                     if r2 == z3.unsat:
